@@ -24,6 +24,14 @@ ProjMatches(st, rec) ==
     /\ \A c \in DOMAIN p.ctxs : DOMAIN rec.ctxs[IdKey(c)] = DOMAIN p.ctxs[c] /\ \A n \in DOMAIN p.ctxs[c] : rec.ctxs[IdKey(c)][n] = p.ctxs[c][n]
     /\ \A b \in DOMAIN p.binds : DOMAIN rec.binds[IdKey(b)] = DOMAIN p.binds[b] /\ \A n \in DOMAIN p.binds[b] : rec.binds[IdKey(b)][n] = p.binds[b][n]
 
+(* evaluation is a function of the programs and the bindings (C11): two executions of the same program name under    *)
+(* equal recorded programs and equal recorded bindings - whichever objects hold them, whatever happened in between -  *)
+(* returned the same outcome                                                                                          *)
+SameInputs(a, b) == /\ a.a = "Exec" /\ b.a = "Exec" /\ a.n = b.n /\ "state" \in DOMAIN a /\ "state" \in DOMAIN b
+                    /\ a.state.ctxs[IdKey(a.c)] = b.state.ctxs[IdKey(b.c)]
+                    /\ a.state.binds[IdKey(a.b)] = b.state.binds[IdKey(b.b)]
+NotAFunction(steps, i) == \E j \in 1..(i - 1) : SameInputs(steps[j], steps[i]) /\ steps[j].out # steps[i].out
+
 RECURSIVE Replay(_, _, _)
 Replay(steps, i, st) ==
     IF i > Len(steps) THEN "ok"
@@ -31,6 +39,7 @@ Replay(steps, i, st) ==
              st2 == Apply(st, ev)
          IN IF ev.a = "Exec" /\ ev.out.o = "crash" THEN "crash@" \o ToString(i)
             ELSE IF ev.a = "Exec" /\ ~Matches(ev.out, ExecOutcome(st, ev).o) THEN "exec-outcome@" \o ToString(i) \o ":" \o ev.n
+            ELSE IF ev.a = "Exec" /\ NotAFunction(steps, i) THEN "exec-not-a-function@" \o ToString(i) \o ":" \o ev.n
             ELSE IF ev.a = "Details" /\ (ev.n \in DOMAIN st.ctxs[ev.c]) /\ ev.src # st.ctxs[ev.c][ev.n].src THEN "details-source@" \o ToString(i)
             ELSE IF ev.a = "Details" /\ ~(ev.n \in DOMAIN st.ctxs[ev.c]) /\ ev.found THEN "details-of-missing-program@" \o ToString(i)
             ELSE IF "state" \in DOMAIN ev /\ ~ProjMatches(st2, ev.state) THEN "state-after-" \o ev.a \o "@" \o ToString(i)
